@@ -376,6 +376,33 @@ def spec_glom_history(col, rng):
         col.count('outcomes_equal_to_cold_baseline')
 
 
+def related_registration_history(col, rng):
+    """registering a BASE of a type that was already looked up: the next call must behave as if the registration had
+    been made first (compared with a cold registry that never saw the earlier calls)"""
+    for i in range(20):
+        Base = type('Base%d' % i, (), {})
+        Mid = type('Mid%d' % i, (Base,), {})
+        Sub = type('Sub%d' % i, (Mid,), {'__init__': lambda self: setattr(self, 'x', 'attr')})
+        h = lambda o, k: 'handler-of-base'
+        which = rng.choice([Base, Mid])
+        op = rng.choice(['get', 'iterate'])
+        spec = 'x' if op == 'get' else [T]
+        kw = {'get': h} if op == 'get' else {'iterate': lambda o: iter(['it'])}
+        warm, cold = Glommer(), Glommer()
+        before = call(warm.glom, Sub(), spec)                    # warms the memo for Sub
+        warm.register(which, **kw)
+        cold.register(which, **kw)
+        a, b = call(warm.glom, Sub(), spec), call(cold.glom, Sub(), spec)
+        col.case(('related-registration', op, which is Base), True)
+        col.count('calls_in_history', 2)
+        if outcome_signature(a) != outcome_signature(b):
+            col.violation('C06/outcome-depends-on-lookups-before-a-registration:%s' % op,
+                          'glom(Sub(), %r) after register(%s, %s=...): with an earlier identical call %r ; without it %r'
+                          % (spec, 'Base' if which is Base else 'Mid', op, a, b), None)
+            return
+        col.count('outcomes_equal_to_cold_baseline')
+
+
 def run(ctx):
     col, rng = ctx.col, ctx.rng
     P = pool()
@@ -394,6 +421,7 @@ def run(ctx):
     saved_star = gcore.PATH_STAR
     try:
         spec_glom_history(col, rng)
+        related_registration_history(col, rng)
         for h in range(ctx.n(3, 4)):
             history(col, rng, P, baselines, ctx.n(500, 3000), contract)
         cache_invariants(col, rng, full=True)
